@@ -20,6 +20,7 @@
       panicked     the code would have panicked ("numOutStandingFrames negative") *)
 From Coq Require Import List ZArith Bool Lia.
 From V Require Import Gen.Params Lib.Hex Wire.Varint.
+From V Require Wire.FramesStream.
 Import ListNotations.
 Open Scope Z_scope.
 
@@ -115,11 +116,12 @@ Definition ro (s : state) : Z := if supportsRSA s then reliableSize s else 0.
 (** ** wire.StreamFrame arithmetic (DataLenPresent = true: every frame the stream builds or
     re-queues has the flag set; OnLost sets it again after the packer may have cleared it) *)
 Definition offLen (off : Z) : Z := if off =? 0 then 0 else vlen off.
-(* MaxDataLen(maxSize) *)
+(* MaxDataLen(maxSize) with DataLenPresent: headerLen counts one byte of length field, then
+   shrinkForLengthField (the same function as in C08's model Wire.FramesStream, tied to Go there) *)
 Definition max_data_len (sid0 off maxSize : Z) : Z :=
   let h := 1 + vlen sid0 + offLen off + 1 in
   if h >? maxSize then 0
-  else let m := maxSize - h in if vlen m =? 1 then m else m - 1.
+  else V.Wire.FramesStream.shrink_for_length_field (maxSize - h).
 (* Length() *)
 Definition frame_len (sid0 : Z) (f : frame) : Z :=
   1 + vlen sid0 + offLen (f_off f) + vlen (zlen (f_data f)) + zlen (f_data f).
